@@ -12,7 +12,7 @@ SPEC = {
     "n_quick": 150, "n_thorough": 3000,
     "variants": {"h0": 55, "h2": 35, "asan": 10},
     "rule": ("each evaluation is one process running `progs` programs of 2-200 threads doing a random mix of lock / "
-             "bounded trylock / timedlock(deadline 1h away) on 1-4 mutexes with an occupancy witness and a plain "
+             "bounded trylock / timedlock (deadline 1 h away, or 0-150 us away: a time-out is logged as a failed attempt and the caller then does not own the mutex) on 1-4 mutexes with an occupancy witness and a plain "
              "counter inside every critical section, plus a progress program (blocked locker must release its "
              "worker); failed trylocks are checked offline against all [lock call, unlock return] stamp intervals. "
              "Non-trivial = at least one locker actually blocked (seat reserved + enqueued); distinct = distinct "
